@@ -23,13 +23,14 @@ Definition C10_logic_statement (d : disc) : Prop :=
        all_done (run d k g calls (concat rounds)) = true /\
        results (run d k g calls (concat rounds)) = map (map (result_solo k g)) calls).
 
-(* memory level: the accesses of any run — to the schema map, to SchemaCache.registered,
+(* memory level: the accesses of any run — to sc.packages, to the Schemas map of every package
+   (for every assignment pk of type names to packages), to SchemaCache.registered,
    to the To field of every RefSchema, inside Schema and by the callers that walk the
    returned schema afterwards — are free of data races under happens-before = program
    order + "Unlock is synchronized before a later Lock" (the Go memory model's rule for
    sync.Mutex), and every To field is written once *)
 Definition C10_memory_statement (d : disc) : Prop :=
-  forall k g calls sched, calls_ok calls ->
-    race_free (events d k g calls sched) /\ write_once (events d k g calls sched).
+  forall pk k g calls sched, calls_ok calls ->
+    race_free (events d pk k g calls sched) /\ write_once (events d pk k g calls sched).
 
 Definition C10_full_statement (d : disc) : Prop := C10_logic_statement d /\ C10_memory_statement d.
